@@ -750,6 +750,15 @@ impl ReaderToken {
         }
     }
 
+    /// Returns true if this token was issued by `manager` (a read-only token, which is not
+    /// tied to a manager, belongs to any manager running in `NoWriteReadOnly` mode).
+    pub(crate) fn issued_by(&self, manager: &VersionManager) -> bool {
+        match &self.release_callback {
+            Some(callback) => std::ptr::eq(callback.version_manager, manager),
+            None => manager.concurrency_level() == ConcurrencyLevel::NoWriteReadOnly,
+        }
+    }
+
     /// Returns the token's version sequence number.
     #[inline]
     pub fn version(&self) -> u64 {
@@ -866,6 +875,14 @@ impl WriterToken {
     #[inline]
     pub fn allows_concurrent_writers(&self) -> bool {
         self.concurrency_level.allows_concurrent_writers()
+    }
+
+    /// Returns true if this token was issued by `manager`.
+    pub(crate) fn issued_by(&self, manager: &VersionManager) -> bool {
+        match &self.release_callback {
+            Some(callback) => std::ptr::eq(callback.version_manager, manager),
+            None => false,
+        }
     }
 }
 
